@@ -1,6 +1,7 @@
 """C20 Isophote fitting recovers the geometry of elliptical light distributions.
-spec/IsoGrowth.tla (outward / inward sma loops with nondeterministic stop codes: sorted list has no duplicate sma and stays within one growth
-step of [minsma, maxsma]), IsoParams.tla (lattice of galaxies and fit configurations enumerated by TLC), Trace_Iso.tla (validation of recorded
+spec/IsoGrowth.tla (implementation-shaped outward / inward sma loops with nondeterministic stop codes incl. invalid fits: Termination, NoCrash,
+returned list sorted / contiguous / within [minsma, maxsma]; the pinned loop is a rejected variant), Trace_IsoGrowth.tla (recorded fit_isophote
+call sequences of real fit_image runs replayed through the same actions), IsoParams.tla (lattice of galaxies and fit configurations enumerated by TLC), Trace_Iso.tla (validation of recorded
 fit_image runs: ordering, bounds, fixed parameters, recovery within reported errors, model reconstruction, scalar/array polar transform)."""
 import json, math, random, warnings
 import numpy as np
